@@ -574,7 +574,9 @@ fn run_inner(case: &SchedCase, obs: &mut dyn Observer, dir: &str, tail: Option<T
     }
     let final_cfg = r.st.cfg.clone();
     let worker_dead = r.worker_dead;
-    // a parked worker would block a joining Drop: it is idle or dead here
+    // A parked worker would block a joining Drop. It is idle or dead here, but the drop itself may hand it more work
+    // (nothing does on the unchanged tree): from here on the worker runs freely; its calls are still traced.
+    trace::gate_disable();
     r.st.close();
     Ok(RunRec {
         trace: Trace::default(),
